@@ -2,6 +2,7 @@
 """Compare an output file of `tools/seeded.py --all-props` with the recorded state (development tool).
 
     /venv/bin/python tools/seeded.py --all-props > /tmp/out.txt ; /venv/bin/python tools/regress.py /tmp/out.txt
+    /venv/bin/python tools/seeded.py --props C05,C11 > /tmp/out.txt ; /venv/bin/python tools/regress.py /tmp/out.txt --props C05,C11
 
 Recorded state = `caught_by` of every breaking change's meta.json, `expected: exit0` of every refactoring (with the
 refactorings whose meta.json carries `undecided_ok` allowed to end undecided for the listed properties). Prints every
@@ -17,6 +18,7 @@ import sys
 HERE = os.path.dirname(os.path.dirname(os.path.abspath(__file__)))
 bad = 0
 n = 0
+ONLY = set(sys.argv[sys.argv.index('--props') + 1].upper().split(',')) if '--props' in sys.argv else None
 for l in open(sys.argv[1]):
     m = re.match(r"(\S+)\s+(\S+)\s+(?:violation=(\[.*?\]) )?(?:undecided=(\[.*?\]))?\s*\|", l)
     if not m:
@@ -41,6 +43,8 @@ for l in open(sys.argv[1]):
         print(f"unrecorded  {sid} violation={sorted(v)} undecided={sorted(u)}")
         continue
     rec = set(meta['caught_by'])
+    if ONLY is not None:
+        rec &= ONLY
     if rec - v:
         print(f"LOST        {sid} {sorted(rec - v)} (now {'undecided' if (rec - v) & u else 'silent'})")
         bad += 1
